@@ -60,7 +60,7 @@ type vC05Sys struct {
 
 func newC05Sys(c *vCtx, cfg vC05Cfg, maxN int) *vC05Sys {
 	s := &vC05Sys{c: c, cfg: cfg, cfgS: cfg.String(), maxN: maxN}
-	vecs := [][]float32{nil, {1, 0.25}, {0, 2}}
+	vecs := [][]float32{nil, {1, 0.25}, {0, 2}, {1, 0}} // the last one equals a stored vector: distance exactly 0
 	texts := [][]string{nil, {"a"}, {"a b"}, {"z"}, {"a", "b"}}
 	for _, v := range vecs {
 		for _, t := range texts {
